@@ -2748,6 +2748,11 @@ func refreshWorkerRules(c *an.Ctx, rule string) {
 				if !inL {
 					bad = "refresh is called outside the loop"
 				}
+				// one refresh at a time: the refreshers (billing upload and its re-merge, profile sync) assume that their
+				// periodic runs do not overlap
+				if _, isGo := call.(*ssa.Go); isGo {
+					bad = "refresh is started in a goroutine of its own, so a slow refresh overlaps the next one (two failed billing uploads are then merged back in the wrong order)"
+				}
 				// the only condition between the tick and the refresh is sleepRandom's verdict
 				for _, e := range an.DominatingConds(call.Block()) {
 					switch cond := e.If.Cond.(type) {
@@ -4322,7 +4327,7 @@ var propPkgs = map[string][]string{
 	"C08": {"dnsserver.", "dnsmsg.", "ecscache.", "dnssvc/internal/mainmw."},
 	"C09": {"dnsserver/ratelimit.", "dnssvc/internal/ratelimitmw.", "agd.", "consul.", "backendpb.", "cmd."},
 	"C10": {"access.", "dnssvc/internal/ratelimitmw.", "backendpb.", "profiledb/internal/filecachepb.", "agdnet.", "geoip."},
-	"C11": {"filter/hashprefix.", "dnssvc/internal/preservice.", "filter/internal/refreshable.", "cmd."},
+	"C11": {"filter/hashprefix.", "filter/internal.", "dnssvc/internal/preservice.", "filter/internal/refreshable.", "cmd."},
 	"C12": {"filter", "agdcache."},
 	"C13": {"filter", "agdservice.", "agdhttp.", "cmd."},
 	"C14": {"profiledb", "backendpb.", "agdservice."},
@@ -4331,7 +4336,7 @@ var propPkgs = map[string][]string{
 	"C17": {"dnsserver/forward.", "dnsserver/pool.", "dnsserver/prometheus.", "cmd."},
 	"C18": {"connlimiter.", "dnsserver.", "dnssvc.", "cmd."},
 	"C19": {"websvc.", "cmd."},
-	"C20": {"cmd.", "dnssvc.", "dnsserver."},
+	"C20": {"cmd.", "dnssvc.", "dnsserver.", "websvc."},
 }
 
 // classSweep runs the repository-independent class rules (each a necessary
@@ -4377,6 +4382,7 @@ func classSweep(c *an.Ctx, prop string) {
 	add("ctx-constructors", sharedContextConstructors(c, rule, pk...))
 	add("prefix-bitlen", sharedPrefixOfSameAddr(c, rule, pk...))
 	add("locks-released", sharedLockReleased(c, rule, pk...))
+	add("nil-receivers", sharedNilReceiverPath(c, rule, pk...))
 	n := 0
 	for _, p := range pk {
 		n += sharedNoShallowCopy(c, rule, p, "github.com/miekg/dns.Msg")
@@ -5713,6 +5719,21 @@ func sharedCloneOwnsItsParts(c *an.Ctx, rule string, match func(fnKey string) bo
 		an.Instrs(fn, func(in ssa.Instruction) {
 			switch x := in.(type) {
 			case *ssa.Call:
+				// the source (or a part of it) handed to a pool while its owner still uses it
+				if callee := an.StaticCallee(x); callee != nil || isPoolPut(x) {
+					nm := ""
+					if callee != nil {
+						nm = callee.Name()
+					}
+					if isPoolPut(x) || strings.HasPrefix(nm, "put") || strings.HasPrefix(nm, "Put") || nm == "Dispose" {
+						for _, a := range x.Call.Args {
+							if src[a] {
+								n++
+								shared = append(shared, "the source itself is returned to the pools by "+nm+" at "+c.Pos(x.Pos()))
+							}
+						}
+					}
+				}
 				if b, ok := x.Call.Value.(*ssa.Builtin); ok && b.Name() == "append" && len(x.Call.Args) == 2 {
 					// the appended elements: a slice literal built in place
 					if sl, ok := x.Call.Args[1].(*ssa.Slice); ok {
@@ -6262,6 +6283,109 @@ func sharedLockReleased(c *an.Ctx, rule string, prefixes ...string) (examined in
 			key := fmt.Sprintf("%s releases %s after %s #%d", an.FnKey(fn), path, kind, siteIndex(fn, call))
 			c.Check(leak == token.NoPos, rule, key, call.Pos(), "every path from the "+kind+" to a return passes the "+want+" or its defer",
 				fmt.Sprintf("the return at %s is reached with %s still locked (no %s and no deferred one on that path): the next %s blocks for ever", c.Pos(leak), path, want, kind))
+		}
+	}
+	return examined
+}
+
+// sharedNilReceiverPath: a method that tests its own receiver for nil has
+// promised to work on a nil receiver (an absent optional component, stored as
+// a typed nil in an interface).  On the path where the receiver is nil it must
+// not touch the receiver's fields, directly or through another method of the
+// type that reads them without a test of its own.  From the nil edge of every
+// such test, no field access through the receiver and no such method call is
+// reachable.  Returns the number of nil tests of a receiver examined.
+func sharedNilReceiverPath(c *an.Ctx, rule string, prefixes ...string) (examined int) {
+	// derefs reports whether fn reads a field of its receiver on some path that no nil test of the receiver dominates
+	derefsUnguarded := func(fn *ssa.Function) bool {
+		if fn == nil || fn.Blocks == nil || fn.Signature.Recv() == nil || len(fn.Params) == 0 {
+			return false
+		}
+		recv := fn.Params[0]
+		bad := false
+		an.Instrs(fn, func(in ssa.Instruction) {
+			fa, ok := in.(*ssa.FieldAddr)
+			if !ok || fa.X != ssa.Value(recv) {
+				return
+			}
+			guarded := false
+			for _, e := range an.DominatingConds(fa.Block()) {
+				if b, ok := e.If.Cond.(*ssa.BinOp); ok && (b.Op == token.EQL || b.Op == token.NEQ) {
+					if (b.X == ssa.Value(recv) && an.IsNilConst(b.Y) || b.Y == ssa.Value(recv) && an.IsNilConst(b.X)) && (b.Op == token.EQL) != e.Branch {
+						guarded = true
+					}
+				}
+			}
+			if !guarded {
+				bad = true
+			}
+		})
+		return bad
+	}
+	for _, fn := range c.AllFns {
+		if fn.Blocks == nil || c.IsTestFile(fn.Pos()) || !c.Prog.InRepo(fn) || !hasAnyPrefix(an.FnKey(fn), prefixes) || fn.Signature.Recv() == nil || len(fn.Params) == 0 {
+			continue
+		}
+		if _, isPtr := fn.Params[0].Type().Underlying().(*types.Pointer); !isPtr {
+			continue
+		}
+		recv := fn.Params[0]
+		inFn := 0
+		for _, b := range fn.Blocks {
+			ifi, ok := b.Instrs[len(b.Instrs)-1].(*ssa.If)
+			if !ok {
+				continue
+			}
+			bo, ok := ifi.Cond.(*ssa.BinOp)
+			if !ok || bo.Op != token.EQL && bo.Op != token.NEQ {
+				continue
+			}
+			if !(bo.X == ssa.Value(recv) && an.IsNilConst(bo.Y) || bo.Y == ssa.Value(recv) && an.IsNilConst(bo.X)) {
+				continue
+			}
+			examined++
+			inFn++
+			c.Analysed(an.FnKey(fn))
+			nilEdge := an.CondEdge{If: ifi, Branch: bo.Op == token.EQL}
+			// blocks reachable from the nil edge
+			seen := map[*ssa.BasicBlock]bool{}
+			work := []*ssa.BasicBlock{nilEdge.To()}
+			bad := ""
+			for len(work) > 0 && bad == "" {
+				x := work[len(work)-1]
+				work = work[:len(work)-1]
+				if seen[x] {
+					continue
+				}
+				seen[x] = true
+				// a block that the non-nil edge dominates is not on a nil path
+				nonNil := false
+				for _, e := range an.DominatingConds(x) {
+					if e.If == ifi && e.Branch != nilEdge.Branch {
+						nonNil = true
+					}
+				}
+				if nonNil {
+					continue
+				}
+				for _, in := range x.Instrs {
+					switch y := in.(type) {
+					case *ssa.FieldAddr:
+						if y.X == ssa.Value(recv) {
+							_, f, _, _ := an.FieldOf(y)
+							bad = "field " + f + " of the receiver is read at " + c.Pos(y.Pos())
+						}
+					case ssa.CallInstruction:
+						if callee := an.StaticCallee(y); callee != nil && len(y.Common().Args) > 0 && y.Common().Args[0] == ssa.Value(recv) && derefsUnguarded(callee) {
+							bad = callee.Name() + ", which reads the receiver's fields, is called on it at " + c.Pos(y.Pos())
+						}
+					}
+				}
+				work = append(work, x.Succs...)
+			}
+			c.Check(bad == "", rule, fmt.Sprintf("%s keeps off a nil receiver after testing it (test %d)", an.FnKey(fn), inFn), ifi.Pos(),
+				"nothing reachable from the nil edge touches the receiver's fields",
+				"on the path where the receiver is nil "+bad+": the method panics for the absent component it was written to tolerate")
 		}
 	}
 	return examined
